@@ -40,6 +40,8 @@ MODGLOBALS = ["TagLibrary", "itemize", "DuplicateTagError", "TagNotFoundError", 
               "get_tag_name", "__name__", "__getattr__"]
 BUILTINS = ["super", "enumerate", "hasattr", "globals", "len", "list", "print", "type", "int", "str", "range", "isinstance"]
 ARBITRARY = ["", " ", "two words", "9lives", "naïve", "a.b", "SHEEP\n", "None", "none",
+             # pairs of DIFFERENT strings with the same NFKC form (micro sign / Greek mu, Angstrom sign / A-ring, fi ligature)
+             "\u00b5g", "\u03bcg", "\u212b", "\u00c5", "\ufb01sh", "fish", "x\u00b2", "x2",
              # names that merely LOOK like the library's own bookkeeping entries / like private or dunder names
              "_tag_wolf", "_tag_", "_tags", "_hidden", "__wolf", "_", "__", "tag_names", "_tag_counter2",
              # text that means something to str.format / %-formatting / templates (error messages quote the name)
@@ -92,6 +94,7 @@ def generate(rng, tier):
                 ops.append({"lib": lib, "op": "add", "name": name})      # ... and once more: rejected as a duplicate
         elif r < 0.65:
             ops.append({"lib": lib, "op": "by_name", "name": rng.choice(PLAIN + ["NONE", "ghost", "UNKNOWN"] +
+                                                                       ["\u00b5g", "\u03bcg", "\u212b", "\u00c5", "\ufb01sh", "fish", "x2"] +
                                                                        (PRIVATE if lib == "g" else []))})
         elif r < 0.8:
             ops.append({"lib": lib, "op": "by_id", "id": rng.choice([-2, -1, 0, 1, 2, 3, 5, 8, 10 ** 6, rng.randint(0, 12)])})
